@@ -53,6 +53,13 @@ pub fn check_marks(g: &G, d: &Dump, v: &mut Vec<Violation>, labels: &mut Vec<Str
                 }
                 labels.push("int-operand".into());
             }
+            MK::Word => {
+                let inside = d.toks.iter().find(|t| (t.b as usize) >= m.off && (t.b as usize) < m.off + m.len && t.e > t.b && (crate::oracle::kw::is_kw(t.t) || matches!(t.t, T::ASSIGN | T::NE | T::LT | T::GT | T::LE | T::GE | T::PLUS | T::MINUS | T::STAR | T::FSLASH | T::NOT | T::AMP | T::PIPE | T::HASH)));
+                if let Some(t) = inside {
+                    v.push(Violation::new("C13", "operator-inside-word", format!("operator-inside-word:{:?}", t.t), format!("an operator token {:?} {}..{} starts inside a plain operand word: {}", t.t, t.b, t.e, ctx(src))));
+                }
+                labels.push("operand-word".into());
+            }
             MK::NotInt => {
                 if let Some(t) = at.iter().find(|t| t.t == T::IntegerLiteral) {
                     v.push(Violation::new("C13", "composite-operand-is-integer", format!("composite-operand-is-integer:{:?}", t.t), format!("digits glued to a macro variable reference are one operand with it, yet {:?} is an integer-literal token: {}", (t.b, t.e), ctx(src))));
@@ -141,6 +148,19 @@ impl Property for GramProp {
         }
         if case.kind == "expect-open-parens" && self.id == "C14" {
             return check_c14_open_parens(case.t0(), case.n as usize);
+        }
+        if case.kind == "expect-word" && self.id == "C13" {
+            // texts = [program, word], n = byte offset of the word: no operator token starts inside it
+            let (m, w, off) = (case.t0(), case.t1(), case.n as usize);
+            let mut vd = Verdict { key: m.to_string(), nontrivial: true, ..Default::default() };
+            let d = match lex(Variant::Rel, m) {
+                Lexed::Ok(d) if !d.verif.budget_exceeded => d,
+                _ => return Verdict::discard("no result (C01 territory)", m.to_string()),
+            };
+            if let Some(t) = d.toks.iter().find(|t| (t.b as usize) >= off && (t.b as usize) < off + w.len() && t.e > t.b && (crate::oracle::kw::is_kw(t.t) || matches!(t.t, T::ASSIGN | T::NE | T::LT | T::GT | T::LE | T::GE | T::PLUS | T::MINUS | T::STAR | T::FSLASH | T::NOT | T::AMP | T::PIPE | T::HASH))) {
+                vd.violations.push(Violation::new("C13", "operator-inside-word", format!("operator-inside-word:{:?}", t.t), format!("an operator token {:?} {}..{} starts inside the plain operand word {w:?} of {m:?}", t.t, t.b, t.e)));
+            }
+            return vd;
         }
         if case.kind == "gap" && self.id == "C13" {
             return check_gap_after_delimiter(case);
